@@ -19,8 +19,8 @@ TIMEOUTS = [0.5, 1.0, 2.0, 5.0]
 
 def plan(tier: str) -> dict:
     return {
-        "runs": 8000 if tier == "quick" else 400000,
-        "budget": 70 if tier == "quick" else 900,
+        "runs": 30000 if tier == "quick" else 400000,
+        "budget": 150 if tier == "quick" else 900,
         "cases": [],
         "chunk": 40,
         "rule": "Session histories on HTTP/1.1 and HTTP/2 connections: requests (fast, slow applications, "
@@ -259,6 +259,8 @@ def run(tape: Tape, params: dict) -> Outcome:
         ending = tape.choice(["close-frame", "tcp", "rst"], "ws.ending")
         ops: List[tuple] = [("frames", wsp.frame(wsp.OP_TEXT, b"first")),
                             ("wait", lambda sc: sess.ws is not None and len(sess.ws.messages) >= 1, 2.0),
+                            ("call", lambda sc: _sibling_get(sc, sess)),
+                            ("wait", lambda sc: _sibling_done(sess), 2.0),
                             ("mark", "open"), ("sleep", pause), ("mark", "after-pause"),
                             ("frames", wsp.frame(wsp.OP_TEXT, b"second")),
                             ("wait", lambda sc: sess.ws is not None and len(sess.ws.messages) >= 2, 2.0),
@@ -404,6 +406,23 @@ def _check(world: World, host: AppHost, conns: List[ConnInfo], T: float, out: Ou
                 bad("fd-leak", f"conn {info.index}: socket still open after worker_serve returned", proto=info.proto)
     elif world.result in ("deadline", "quiescent"):
         out.notes.append(f"worker_serve ended with {world.result}")
+
+
+def _sibling_get(sc: Script, sess: Any) -> None:
+    """HTTP/2 carrier: an ordinary request next to the WebSocket stream; when it completes the connection has a
+    stream that finished and one (the WebSocket) that has not - it is not idle."""
+    if sess.carrier != "h2" or sc.ended:
+        return
+    peer = sess.peer
+    sid = peer.new_stream()
+    sess.sibling = sid
+    sc.conn.client.send(peer.headers(sid, [(b":method", b"GET"), (b":scheme", b"http"), (b":authority", b"example.test"),
+                                           (b":path", b"/sib"), (b"x-tag", b"wssib")], end_stream=True))
+
+
+def _sibling_done(sess: Any) -> bool:
+    sid = getattr(sess, "sibling", None)
+    return sess.carrier != "h2" or (sid is not None and sess.peer.stream_done(sid))
 
 
 def _check_ws(world: World, host: AppHost, ws: Dict[str, Any], T: float, out: Outcome) -> None:
